@@ -98,6 +98,49 @@ Theorem C04_fuel_suffices :
 Proof. exact serve_never_out_of_fuel. Qed.
 Print Assumptions C04_fuel_suffices.
 
+(* What the caller awaiting a frame is HANDED (round 5: the clause "delivered ... to the caller
+   awaiting that ID ... with exactly the payload bytes the reader sent, for payload sizes from 0
+   to beyond the buffering limit").  [caller_data maxbuf sf h r] is Message.data (messages.go
+   348-369) run by SendMessage / SendFor / UnmarshalTo on the Message passToHandler put on the
+   reply channel; sf = true is the order of checks in the tree (size check first).  For every
+   limit, configuration, awaiting state, registration pattern, handler behaviour and every
+   continuation of the stream: the j-th record belongs to the j-th frame, and if its id was
+   awaited the caller gets, under the frame's type, exactly the frame's payload bytes — or an
+   error, and an error only for a payload beyond the limit ([caller_exact], StreamProofs.v).
+   Never a success with other (fewer, no, different) bytes. *)
+Theorem C04_caller_exact_bytes_or_error :
+  forall (maxbuf : N) (cfg : config) (fs : list frame) (st : state)
+         (env : nat -> env_step) (rest : list byte),
+  Forall frame_wf fs ->
+  exists l tail,
+    r_log (serve maxbuf cfg st env (concat (map frame_bytes fs) ++ rest)) = l ++ tail /\
+    Forall2 (caller_exact maxbuf true) fs l /\
+    tail = r_log (serve_from maxbuf cfg (state_after cfg st env O fs) env (length fs) rest).
+Proof. exact serve_caller_exact. Qed.
+Print Assumptions C04_caller_exact_bytes_or_error.
+
+(* FALSE if Message.data takes its `payload == nil` shortcut before the size check (the order
+   the tree had before the fix of F3, and the order a "the limit only matters when we allocate"
+   re-ordering gives): limit 4, an awaited reply of type 12 with payload 1 2 3 4 5 is handed to
+   its caller as (type 12, no bytes, no error); with the size check first the caller gets an
+   error.  More generally EVERY awaited over-limit frame then comes out as an empty success. *)
+Theorem C04_caller_exact_bytes_or_error_refuted :
+  (exists maxbuf cfg st env f d,
+     frame_wf f /\ r_log (serve maxbuf cfg st env (frame_bytes f)) = [d] /\ d_hdr d = frame_header f /\
+     caller_handed maxbuf false d = Some (Some (f_typ f, [])) /\ f_payload f <> [] /\
+     caller_handed maxbuf true d = Some None) /\
+  (forall maxbuf cfg aw e f, awaited cfg aw e f = true -> maxbuf < len (f_payload f) ->
+     caller_handed maxbuf false (expected_dispatch maxbuf cfg aw e f) = Some (Some (f_typ f, []))).
+Proof.
+  split.
+  - destruct wit_nil_first_empty_success as [Hwf [d Hd]].
+    exists 4, (mkConfig (fun _ => false) false (fun _ => false)), (mkState [7] false),
+           (fun _ => mkEnv [] (HRead 0) false), (mkFrame 0 1 12 7 [1; 2; 3; 4; 5]), d.
+    split; [exact Hwf|exact Hd].
+  - exact expected_dispatch_nil_first_empty.
+Qed.
+Print Assumptions C04_caller_exact_bytes_or_error_refuted.
+
 (* The byte-level loop refines the client LTS of Client/Model.v (the model behind C03, C05, C07,
    C08, C09): from an LTS state s whose reader is in readHeader and a byte-level state st that
    agree on the awaited ids and on receivedClosed ([Refine.rel]; [core_inv] is the LTS's proved
@@ -186,3 +229,14 @@ Proof. vm_compute. reflexivity. Qed.
 Example C04_example_wf :
   Forall frame_wf [mkFrame 0 1 12 7 [1;2;3;4;5]; mkFrame 5 2 62 9 [6;7;8]; mkFrame 0 1 63 7 [9]].
 Proof. repeat constructor; vm_compute; reflexivity. Qed.
+
+(* non-vacuity of C04_caller_exact_bytes_or_error: limit 4; two awaited replies (ids 7 and 8),
+   the first beyond the limit, the second within it: the first caller gets an error, the second
+   (type 13, bytes 9 8 7) *)
+Example C04_example_caller :
+  let cfg := mkConfig (fun _ => false) true (fun _ => false) in
+  let env := fun _ : nat => mkEnv [] (HRead 1) false in
+  let fs := [mkFrame 0 1 12 7 [1;2;3;4;5]; mkFrame 0 1 13 8 [9;8;7]] in
+  map (caller_handed 4 true) (r_log (serve 4 cfg (mkState [7; 8] false) env (concat (map frame_bytes fs))))
+  = [Some None; Some (Some (13, [9;8;7]))].
+Proof. vm_compute. reflexivity. Qed.
